@@ -86,11 +86,12 @@ def isPySpace (c : Char) : Bool :=
 def isCSpace (c : Char) : Bool := (9 ≤ c.toNat && c.toNat ≤ 13) || c == ' '
 
 /-- White space for `int()`, `float()`, `complex()` of a `str`: CPython first maps the text to ASCII
-(`_PyUnicode_TransformDecimalAndSpaceToASCII`: every `Py_UNICODE_ISSPACE` character becomes a space) —
-but returns a text that is already pure ASCII unchanged — and then skips `Py_ISSPACE` characters.
-So `\x1c`–`\x1f` count as white space only when the text also holds a non-ASCII character. -/
+(`_PyUnicode_TransformDecimalAndSpaceToASCII`: ASCII characters are kept as they are, a non-ASCII
+`Py_UNICODE_ISSPACE` character becomes a space) and then skips `Py_ISSPACE` characters.  So `\x1c`–`\x1f`,
+which `str.strip()` removes, are NOT white space for the number parsers, while U+00A0, U+2003 … are.
+(The `text` argument is not used; it is kept so that the callers read like the Python.) -/
 def numSpace (text : Str) (c : Char) : Bool :=
-  if text.all (fun c => c.toNat < 128) then isCSpace c else isPySpace c
+  if c.toNat < 128 then isCSpace c else isPySpace c
 
 def rstripBy (p : Char → Bool) : Str → Str
   | [] => []
